@@ -35,6 +35,8 @@ type hLoc struct {
 	*Location
 	source string // cdp | url | file
 	file   string
+	cdp    []string // the distribution-point set every certificate of this location carries (one identifier per location)
+	cdpKind string
 	published map[int][]string // forms in which each version was ever published
 }
 
@@ -83,7 +85,7 @@ func (r *histRun) observe(n *hNode) observation {
 	for _, l := range r.locs {
 		var o locObs
 		probe := func(s *big.Int) bool {
-			rv, err := r.h.PureProbe(n.Node, l.Issuer.Cert.RawSubject, s)
+			rv, err := r.h.PureProbeCert(n.Node, l.ProbeCert(s))
 			r.h.R.Checks++
 			if err != nil {
 				o.Err = err.Error()
@@ -144,6 +146,9 @@ func (r *histRun) checkObs(n *hNode, obs observation, when string) {
 		}
 		if o.Never {
 			r.viol("C11.unlisted-revoked", "never-probe:"+l.source, "%s: node %s reports a serial revoked that no version of %s ever listed (obs %v)", when, n.Name, l.Name, o)
+		}
+		if len(o.S) > 1 {
+			r.viol("C11.superseded-in-force", "multi-version:"+l.source, "%s: node %s answers from entries of more than one version of %s at once (obs %v): entries of a superseded list outlive their replacement", when, n.Name, l.Name, o)
 		}
 		if o.Common != (len(o.S) > 0) {
 			r.viol("C11.partial-list", "partial:"+l.source, "%s: node %s answers from a list of %s that is not one complete version (obs %v)", when, n.Name, l.Name, o)
@@ -233,7 +238,9 @@ func runCRLHistory(h *Harness, cfg histCfg) {
 		h.R.Config = "faulty"
 	}
 	r.cfg.faulty = faulty
-	w := NewWorld(h, WorldOpts{Intermediate: tp.Chance(1, 2), RSA: tp.Chance(1, 6)})
+	dnA, dnB := Pick(tp, 0, 0, 1, 2, 3, 4, 5), Pick(tp, 0, 0, 1, 2, 3, 4, 5)
+	sc["dn"] = fmt.Sprintf("%d/%d", dnA, dnB)
+	w := NewWorld(h, WorldOpts{Intermediate: tp.Chance(1, 2), RSA: tp.Chance(1, 6), DNShapeA: dnA, DNShapeB: dnB})
 	r.w = w
 	sc["backend"], sc["mode"], sc["sig"], sc["fetch"], sc["strict"], sc["nodes"], sc["pre"] = backend, mode, r.sig, fetch, strict, nnodes, pre
 
@@ -248,6 +255,17 @@ func runCRLHistory(h *Harness, cfg histCfg) {
 			EntryExt: tp.Chance(1, 3), AKI: Pick(tp, akiDefault, akiAbsent, akiDefault, akiBoth), Base: base})
 		l.Chunk = Pick(tp, 0, 0, 1, 7, 100, 4096)
 		hl := &hLoc{Location: l, source: source}
+		if source == "cdp" {
+			hl.cdpKind = Pick(tp, "own", "own", "mixed", "two")
+			switch hl.cdpKind {
+			case "own":
+				hl.cdp = []string{l.URL}
+			case "mixed":
+				hl.cdp = []string{"ldap://dir.sim/cn=crl,o=sim", l.URL}
+			case "two":
+				hl.cdp = []string{"http://dead.sim/" + name + ".crl", l.URL}
+			}
+		}
 		r.locs = append(r.locs, hl)
 		return hl
 	}
@@ -306,7 +324,7 @@ func runCRLHistory(h *Harness, cfg histCfg) {
 	// motifs: short scripted prefixes that put the system into the states the property is about
 	// (a fault right before a first load, a rejected list followed by an accepted one, ...)
 	var script []func()
-	motif := tp.Weighted(5, 2, 2, 2)
+	motif := tp.Weighted(5, 2, 2, 2, 2)
 	sc["motif"] = motif
 	cdpLocs := []*hLoc{}
 	for _, l := range r.locs {
@@ -316,6 +334,7 @@ func runCRLHistory(h *Harness, cfg histCfg) {
 	}
 	ml := cdpLocs[tp.Int(len(cdpLocs))]
 	mn := r.nodes[0]
+	_ = mn
 	switch motif {
 	case 1: // a list that must be rejected is fetched first, then an acceptable different version
 		k := tp.Int(3)
@@ -345,6 +364,17 @@ func runCRLHistory(h *Harness, cfg histCfg) {
 			func() { setOrigin(ml, oGood, ml.Cur, "") },
 			func() { r.handshakeWith(mn, ml, "never", 0, Pick(tp, "own", "mixed", "two"), strict, mode) },
 			func() { r.handshakeWith(mn, ml, "common", 0, "own", strict, mode) },
+		)
+	case 4: // a load that fails (or is still pending), then a restart on the same work_dir, then the same certificate again
+		script = append(script,
+			func() { setOrigin(ml, Pick(tp, oDown, oGarbage, oHTTP500, oTrunc), ml.Cur, "") },
+			func() { r.handshakeWith(mn, ml, "never", 0, "loc", strict, mode) },
+			func() { r.restart(0) },
+			func() { r.handshakeWith(r.nodes[0], ml, "never", 0, "loc", strict, mode) },
+			func() { r.handshakeWith(r.nodes[0], ml, "common", 0, "loc", strict, mode) },
+			func() { setOrigin(ml, oGood, ml.Cur, "") },
+			func() { r.events = append(r.events, "tick"); h.Settle(10*time.Minute + 30*time.Second) },
+			func() { r.handshakeWith(r.nodes[0], ml, "common", 0, "loc", strict, mode) },
 		)
 	case 3: // soundness across a refresh: listed before, newly listed after
 		script = append(script,
@@ -396,28 +426,9 @@ func runCRLHistory(h *Harness, cfg histCfg) {
 				h.R.NonTrivial = true
 			}
 		case 3: // restart
-			i := tp.Int(len(r.nodes))
-			n := r.nodes[i]
-			r.events = append(r.events, "restart("+n.Name+")")
-			h.Cleanup(n.Node)
-			h.Settle(6 * time.Minute) // let the old instance's in-flight work drain; > interval/2 so the first update is not skipped
-			nn := &hNode{Node: h.NewNodeOn(fmt.Sprintf("%s.r%d", n.Name[:2], n.gen+1), r.ncfg[i], n.WorkDir), gen: n.gen + 1}
-			if err := h.Provision(nn.Node); err != nil {
-				r.h.Probe("reprovision-failed")
-				r.events = append(r.events, "reprovision-failed")
-				// origin may be down for a configured URL: provisioning legitimately fails then
-				allGood := true
-				for _, l := range r.locs {
-					if l.source != "cdp" && (l.State != oGood || l.Variant != "") {
-						allGood = false
-					}
-				}
-				if allGood {
-					r.viol("C20.reprovision", "reprovision-failed", "provisioning again on the same work_dir after Cleanup failed although every configured CRL is available: %v", err)
-				}
+			if !r.restart(tp.Int(len(r.nodes))) {
 				return
 			}
-			r.nodes[i] = nn
 		case 4:
 			r.events = append(r.events, "advance(3s)")
 			h.Settle(3 * time.Second)
@@ -439,11 +450,38 @@ func runCRLHistory(h *Harness, cfg histCfg) {
 	_ = l3
 }
 
+// restart cleans node i up and provisions a new instance on the same work_dir.
+func (r *histRun) restart(i int) bool {
+	h := r.h
+	n := r.nodes[i]
+	r.events = append(r.events, "restart("+n.Name+")")
+	h.Cleanup(n.Node)
+	h.Settle(6 * time.Minute) // let the old instance's in-flight work drain
+	nn := &hNode{Node: h.NewNodeOn(fmt.Sprintf("%s.r%d", n.Name[:2], n.gen+1), r.ncfg[i], n.WorkDir), gen: n.gen + 1}
+	if err := h.Provision(nn.Node); err != nil {
+		r.h.Probe("reprovision-failed")
+		r.events = append(r.events, "reprovision-failed")
+		// origin may be down for a configured URL: provisioning legitimately fails then
+		allGood := true
+		for _, l := range r.locs {
+			if l.source != "cdp" && (l.State != oGood || l.Variant != "") {
+				allGood = false
+			}
+		}
+		if allGood {
+			r.viol("C20.reprovision", "reprovision-failed", "provisioning again on the same work_dir after Cleanup failed although every configured CRL is available: %v", err)
+		}
+		return false
+	}
+	r.nodes[i] = nn
+	return true
+}
+
 func (r *histRun) handshake(n *hNode, l *hLoc, strict bool, mode string) {
 	tp := r.h.Tape
 	k := tp.Int(len(l.OnlyV))
 	class := Pick(tp, "only", "common", "never", "twin")
-	cdpKind := Pick(tp, "own", "own", "none", "ldap", "mixed", "two")
+	cdpKind := Pick(tp, "loc", "loc", "loc", "none", "ldap")
 	if l.source != "cdp" {
 		cdpKind = Pick(tp, "none", "none", "ldap")
 	}
@@ -473,16 +511,16 @@ func (r *histRun) handshakeWith(n *hNode, l *hLoc, class string, k int, cdpKind 
 	var cdp []string
 	var cdpLoc *hLoc
 	switch cdpKind {
-	case "own":
-		cdp, cdpLoc = []string{l.URL}, l
+	case "own", "mixed", "two", "loc":
+		if l.source == "cdp" {
+			cdp, cdpLoc, cdpKind = l.cdp, l, l.cdpKind
+		} else {
+			cdp, cdpKind = []string{}, "none"
+		}
 	case "none":
 		cdp = []string{}
 	case "ldap":
 		cdp = []string{"ldap://dir.sim/cn=crl,o=sim?certificateRevocationList"}
-	case "mixed":
-		cdp, cdpLoc = []string{"ldap://dir.sim/cn=crl,o=sim", l.URL}, l
-	case "two":
-		cdp, cdpLoc = []string{"http://dead.sim/none.crl", l.URL}, nil // a different location identifier: pattern probes cannot attribute it
 	}
 	if class == "twin" {
 		// the twin's own CDP points at the location of its own issuer, if there is one
@@ -502,6 +540,18 @@ func (r *histRun) handshakeWith(n *hNode, l *hLoc, class string, k int, cdpKind 
 	// C01: listed in a list that was in force throughout => rejected
 	if crlOn && lb && la && hs.Err == nil {
 		r.viol("C01.listed-accepted", "listed-accepted:"+class+":"+l.source, "node %s accepted %s serial %s although a CRL observed in force before and after the handshake lists it (before %v, after %v)", n.Name, issuer.Name, serial.Text(16), before, after)
+	}
+	// C01, independent of the probes (which share the lookup path with the handshake): where the validator itself
+	// claims that a CRL of this location is loaded — it accepted a certificate through the strict gate, or
+	// provisioning with the location configured succeeded — every acceptable version of the location lists
+	// 'common', so accepting it is never right.
+	if crlOn && hs.Err == nil && class == "common" && issuer == l.Issuer {
+		switch {
+		case strict && cdpLoc == l:
+			r.viol("C01.listed-accepted", "loaded-claimed:strict-gate:"+l.source, "node %s accepted %s serial %s through the strict gate (so it claims a CRL for %s is loaded), but every version of that CRL lists the serial (issuer name %q)", n.Name, issuer.Name, serial.Text(16), l.Name, issuer.Cert.Subject.String())
+		case l.source != "cdp":
+			r.viol("C01.listed-accepted", "loaded-claimed:configured:"+l.source, "node %s accepted %s serial %s although %s is a configured CRL (provisioning succeeded) and every version of it lists the serial (issuer name %q)", n.Name, issuer.Name, serial.Text(16), l.Name, issuer.Cert.Subject.String())
+		}
 	}
 	// C11: "revoked" needs a listing in something observed in force
 	if isRevokedErr(hs.Err) && !lb && !la {
